@@ -291,9 +291,27 @@ class VmdkSparse(Parser):
         mv = variants.get("magic")
         if mv:
             blob = patch(blob if (mv[1] == 0 and "footer_magic" in variants) else self.bases[mv[1]], mv[2])
-        s = SparseDisk(io.BytesIO(blob))
-        if len(s.read_sectors(0, 8)) != 4096:
-            raise AssertionError("short")
+        try:
+            s = SparseDisk(io.BytesIO(blob))
+            if len(s.read_sectors(0, 8)) != 4096:
+                raise AssertionError("short")
+        except Exception:
+            if not mv:
+                raise
+            # refused when opened directly: the same extent named by a descriptor that declares its type must be refused as well
+            from dissect.hypervisor.disk.vmdk import VMDK
+            d = tempfile.mkdtemp(prefix="c12-vmdk-")
+            try:
+                etype = ("SPARSE", "VMFSSPARSE", "SESPARSE")[mv[1]]
+                with open(os.path.join(d, "x-s001.vmdk"), "wb") as f:
+                    f.write(blob)
+                with open(os.path.join(d, "x.vmdk"), "w") as f:
+                    f.write(enc_vmdk.descriptor_text([f'RW 16 {etype} "x-s001.vmdk"']))
+                v = VMDK(Path(d) / "x.vmdk")
+                if len(v.read(4096)) != 4096:
+                    raise AssertionError("short")
+            finally:
+                shutil.rmtree(d, ignore_errors=True)
 
 
 # ------------------------------------------------------------------------------------------------ Hyper-V
